@@ -103,7 +103,7 @@ def parseR (s : String) : Option Up :=
 /-- the scripted handler: `SetReply(request as seen)` + the scripted content.
 `ownOpt`: the request's OPT is the writer's `w.opt` object (decoded path). -/
 def upstream (u : Up) (ownOpt : Bool) (q : Query) : Option Msg :=
-  if u.mode == "n" || u.mode == "p" then none else
+  if u.mode == "n" || u.mode == "p" || u.mode == "P" then none else
   let optRR : Option RR :=
     if u.same then (match q.opt with | some o => some (.opt o ownOpt) | none => none)
     else (match u.opt with | some o => some (.opt o false) | none => none)
@@ -200,8 +200,8 @@ def step (st : State) (w : List String) : State × String :=
       let wire := path == "w" && wireEligible q
       let wb := wire && (q.opt.isNone || (q.opt.map (·.version)) == some 0)
       let res :=
-        if u.mode == "p" then
-          serveGuarded L Lu consts st.cfg p q wb (fun _ => .panic)
+        if u.mode == "p" || u.mode == "P" then
+          serveGuarded L Lu consts st.cfg p q wb (fun _ => if u.mode == "P" && wb then .panicUndecoded else .panic)
         else if wb then
           serveWireBorn L Lu consts st.cfg p q (upstream u false)
         else serveDNS L Lu consts st.cfg p q (upstream u (!wire))
@@ -286,6 +286,7 @@ def step (st : State) (w : List String) : State × String :=
     | _, _, _, _, _ => (st, "bad-op")
   | "srv" :: "new" :: _ => (st, "ok")
   | ["srv", "stop"] => (st, "ok")
+  | "srv" :: "seed" :: _ => (st, "unmodelled")
   | "srv" :: "q" :: _ => (st, "unmodelled")
   | ["srv", "raw", entry, pkt, _r, dec] =>
     if entry == "sockudp" || entry == "socktcp" then
